@@ -72,6 +72,7 @@ func runC09(r *core.Run) {
 
 	alignHistories(r, []string{"sym:1:-1:-1:0", "sym:2:-3:-2:0", "asym:1:0", "exact:fine:0"}, judgeOptimal(r, nil))
 	matrixMutationHistories(r, true, judgeOptimal(r, nil))
+	alignAllLengthPairs(r, "sym:2:-1:-1:0", judgeOptimal(r, nil))
 	alignBufferReuse(r, []string{"sym:1:-1:-1:0", "sym:2:-3:-2:0"})
 	alignAllBytes(r, true, []string{"2:-1:-1:0", "1:-3:0:0"}, judgeOptimal(r, nil))
 	alignAliasing(r, "AB", core.Pick(r, 4, 5), []string{"sym:1:-1:-1:0", "sym:2:-3:-2:0", "sym:0:-1:-1:0", "asym:1:0", "Levenshtein"}, judgeOptimal(r, nil))
@@ -204,6 +205,7 @@ func runC10(r *core.Run) {
 	core.Clause(r, "family-ABC", core.Opts{Rule: rule}, genAlign(r, "nonzero-open", "ABC", core.Pick(r, 3, 5), bothFns), chk)
 	alignHistories(r, []string{"sym:1:-1:-1:-1", "sym:3:-3:-1:-2", "asym:0:-2", "exact:big:-1"}, judgeOptimal(r, map[string]string{"Global": "C10-global", "Local": "C10-local"}))
 	matrixMutationHistories(r, false, judgeOptimal(r, map[string]string{"Global": "C10-global", "Local": "C10-local"}))
+	alignAllLengthPairs(r, "sym:2:-1:-1:-1", judgeOptimal(r, map[string]string{"Global": "C10-global", "Local": "C10-local"}))
 	alignBufferReuse(r, []string{"sym:1:-1:-1:-1", "sym:3:-3:-1:-2"})
 	alignAllBytes(r, false, []string{"2:-1:-1:-1", "2:-3:0:-1"}, judgeOptimal(r, map[string]string{"Global": "C10-global", "Local": "C10-local"}))
 	alignAliasing(r, "AB", core.Pick(r, 4, 5), []string{"sym:1:-1:-1:-1", "sym:3:-3:-1:-2", "sym:2:-3:0:-1", "asym:0:-2"}, judgeOptimal(r, map[string]string{"Global": "C10-global", "Local": "C10-local"}))
